@@ -92,6 +92,7 @@ class NamesExtractor(walkers.dag.DagWalker):
         op.OperatorKind.LE,
         op.OperatorKind.LT,
         op.OperatorKind.EQUALS,
+        *op.TRAJECTORY_CONSTRAINTS,
     )
     def walk_union(self, expression: FNode, args: List[Set[str]]) -> Set[str]:
         return self._args_merge_in_place(args, set())
